@@ -848,6 +848,7 @@ class Runner:
         self.drv = drv
         self.tmpdir = tmpdir
         self.seen = {}
+        self._export_frag = None      # per-netlist collection of the export_readable hypotheses, scope by scope
         from common import findings
         self.open_sigs = {k["signature"] for k in findings.load() if k.get("property") == PID and k.get("status") == "open"}
 
@@ -868,7 +869,7 @@ class Runner:
                  "bits": sib_bits(s) if scope == "cables" else []} for s in pre]
 
     def model_prepass(self, pre, rules=None, scope=None):
-        req = {"fn": "prepass", "sibs": self.msibs(pre, scope)}
+        req = {"fn": "prepass", "sibs": self.msibs(pre, scope), "cables": scope == "cables"}
         if rules is not None:
             req["rules"] = rules
         return self.drv.ask(req)
@@ -903,6 +904,15 @@ class Runner:
             if "error" in m:
                 self.res["obligations"].append(("driver answered request", False, m["error"][:200]))
                 return sigs
+            if report:
+                # reach of the headline theorems (reporting only; no verdict depends on it): the driver
+                # evaluates each theorem's decidable hypotheses on this very scope
+                for thm, r in sorted((m.get("fragments") or {}).items()):
+                    if thm == "export_readable":
+                        if self._export_frag is not None:
+                            self._export_frag.append((scope, r))
+                        continue
+                    self.res.dist("theorem_fragment:%s:%s" % (thm, "in" if r == "in" else "out:" + r))
             if not m.get("repEq", True):
                 self.res["obligations"].append(("ModelOld with repaired rules == Model", False, json.dumps(pre)[:300]))
             if not m.get("finished", True):
@@ -1081,7 +1091,28 @@ class Runner:
                             break
         return cur
 
+    def _export_begin(self, report):
+        """start collecting for one netlist; returns the collection of an enclosing run (shrinking re-enters)"""
+        prev = self._export_frag
+        self._export_frag = [] if report else None
+        return prev
+
+    def _export_end(self, prev):
+        """one key per netlist: inside NameHyp + AvoidsPinnedClasses in every scope, or the first failing hypothesis"""
+        fr, self._export_frag = self._export_frag, prev
+        if not fr:
+            return
+        bad = [(sc, r) for sc, r in fr if r != "in"]
+        self.res.dist("theorem_fragment:export_readable:" + ("in" if not bad else "out:" + bad[0][1]))
+
     def run_netlist(self, inp, report=True):
+        prev = self._export_begin(report)
+        try:
+            return self._run_netlist(inp, report)
+        finally:
+            self._export_end(prev)
+
+    def _run_netlist(self, inp, report=True):
         sigs = set()
         d = tempfile.mkdtemp(dir=self.tmpdir)
         try:
@@ -1201,6 +1232,13 @@ class Runner:
         return cur
 
     def run_history(self, inp, report=True):
+        prev = self._export_begin(report)
+        try:
+            return self._run_history(inp, report)
+        finally:
+            self._export_end(prev)
+
+    def _run_history(self, inp, report=True):
         """read -> edit -> compose -> read on a reader-produced netlist (EDIF naming policy).  A compose
         that raises is a failure of the property ("export always yields a re-readable file")."""
         import spydrnet as sdn
